@@ -40,9 +40,10 @@ PROPS = {
     },
     "C15": {
         "level": "proof",
-        "lean_targets": ["LP.Props.C15", "LP.Props.C15V"],
-        "harnesses": [{"name": "h_interval", "quick": 60000, "thorough": 1000000}],
-        "select": lambda t: t[1] in ("qi", "di", "vi", "vil"),
+        "lean_targets": ["LP.Props.C15", "LP.Props.C15V", "LP.Props.C15P"],
+        "harnesses": [{"name": "h_interval", "quick": 60000, "thorough": 1000000},
+                      {"name": "h_pival", "quick": 5000, "thorough": 100000}],
+        "select": lambda t: t[1] in ("qi", "di", "vi", "vil", "pi"),
         "nontrivial": lambda t, r: True,
         "rule": "exhaustive: all 45 intervals with end points in {-2..2} (points and every open/closed pattern), all 2025 ordered pairs "
                 "x {add,sub,mul}, neg, pow 0..4, sgn, for rational and dyadic intervals; then random intervals (small-pool end points so that "
